@@ -91,3 +91,7 @@ claim("C23",
       "The encoder half of C23: the real cte.EncoderEventReceiver (context, decorators, array engine, writer) encodes a typed / bit / string-like / media / custom-binary array delivered whole and delivered in 2 chunks with every chunk boundary and every data-event split point (mid-element, mid-character), with symbolic content; z3 shows both texts are byte-identical.",
       "fmt.Sprintf on symbolic integers is an engine model proved equal to strconv by the self-test (T00). Float arrays (float text) and decode-then-re-encode idempotence (ANTLR) are outside reach. Quick bounds are small (2 elements / 2 bytes) because every digit count, bit and character class forks.",
       "DESIGN.md §5 C23")
+claim("C25",
+      "For every format setting (7) and every integer array kind, the real CTE encoder writes an array whose element values are solver variables (symbolic fmt model), the element texts are cut out and parsed back by the real parseIntElement/parseUintElement (strconv interpreted from source) with the base the header selects; z3 (cvc5 as fallback) shows the parsed bytes equal the original element bytes for all element values.",
+      "Quick: all values of 8/16-bit kinds for all 7 settings, 32-bit kinds for binary/octal/hex settings; thorough adds 64-bit kinds and 32-bit decimal. The header->base association (grammar) is assumed; float kinds are outside reach. Setting value 1 (FlagZeroFilled alone) and unnamed values 2,3 are not exercised.",
+      "DESIGN.md §5 C25")
